@@ -72,6 +72,99 @@ def fieldDecision (warm : Bool) : Field → Bool
   | .pubkey => warm              -- only examined when no key is known yet
   | _ => false                   -- signed prefix, signature, share data: rejected
 
+/-! ### share-hash-tree validation across one whole Retrieve (retrieve.py)
+
+`Retrieve._setup_download` makes ONE `IncompleteHashTree(N)` per download and seeds it with the root
+hash of the signed prefix (`share_hash_tree.set_hashes({0: root_hash})`); `_validate_block` feeds every
+share's chain and block-hash root into it; `_handle_bad_share` / `_mark_bad_share` drop the reader and
+leave the tree alone.  `IncompleteHashTree.set_hashes` checks the hashes it is given against the nodes it
+already knows and *adopts* the root it computed itself when it knows none -- so the seeded root is what
+ties every later share to the signature, and it must survive every rejected share.
+
+Deviation: of the tree only its root is kept (`tree : Option H`); with collision-free hashing every
+known inner node is determined by the root, so "consistent with the known nodes" = "hashes to the known
+root".  Chains the reader does not ask for because the nodes are already known are modelled as given.
+(In the `none` branch -- never reached from `Retr.setup` -- a real tree that adopted a root computed from
+a damaged leaf also remembers the chain's inner nodes; the driver correspondence therefore feeds unseeded
+trees internally consistent shares only.) -/
+
+/-- what `set_hashes` computes on the way up: the root obtained from a chain, the leaf number and the leaf -/
+structure TreeOps (H Chain : Type) where
+  chainRoot : Chain → Nat → H → H
+
+/-- the part of a `Retrieve` that block validation reads and writes -/
+structure Retr (H Blocks : Type) where
+  tree : Option H                  -- root node of `self.share_hash_tree`, if known
+  shares : List (Nat × Blocks)     -- validated (shnum, blocks), oldest first
+  bad : List Nat                   -- share numbers marked bad
+
+/-- what happens to a Retrieve: a share's answer arrives and goes through `_validate_block`, or the
+share fails for any other reason (connection error, layout error, block hash tree failure, prefix mismatch) -/
+inductive REv (Chain Blocks : Type)
+  | offer (shnum : Nat) (chain : Chain) (blocks : Blocks)
+  | fail (shnum : Nat)
+
+/-- `_setup_download`: a fresh tree seeded with the signed root -/
+def Retr.setup {H Blocks : Type} (root : H) : Retr H Blocks := { tree := some root, shares := [], bad := [] }
+
+/-- `_mark_bad_share`: the reader is dropped; the share hash tree is NOT touched -/
+def markBad {H Blocks : Type} (r : Retr H Blocks) (shnum : Nat) : Retr H Blocks := { r with bad := shnum :: r.bad }
+
+/-- one event.  `offer` = `share_hash_tree.set_hashes(hashes=chain, leaves={shnum: bht[0]})` followed by
+acceptance, or `CorruptShareError` → `_handle_bad_share` → `_mark_bad_share`. -/
+def rstep {H Chain Blocks : Type} [DecidableEq H] (T : TreeOps H Chain) (bhtRoot : Blocks → H)
+    (r : Retr H Blocks) : REv Chain Blocks → Retr H Blocks
+  | .offer i c b =>
+    let computed := T.chainRoot c i (bhtRoot b)
+    match r.tree with
+    | some root => if computed = root then { r with shares := r.shares ++ [(i, b)] } else markBad r i
+    | none => { r with tree := some computed, shares := r.shares ++ [(i, b)] }   -- a root it computed itself is accepted
+  | .fail i => markBad r i
+
+def rrun {H Chain Blocks : Type} [DecidableEq H] (T : TreeOps H Chain) (bhtRoot : Blocks → H)
+    (r : Retr H Blocks) (evs : List (REv Chain Blocks)) : Retr H Blocks := evs.foldl (rstep T bhtRoot) r
+
+/-- NOT the code: the variant in which bad-share handling starts over with a clean share hash tree.
+Kept only for the counterexample in Props/C10 that shows why the seeded root must never be reset. -/
+def rstepReset {H Chain Blocks : Type} [DecidableEq H] (T : TreeOps H Chain) (bhtRoot : Blocks → H)
+    (r : Retr H Blocks) (e : REv Chain Blocks) : Retr H Blocks :=
+  let r' := rstep T bhtRoot r e
+  if r'.bad.length = r.bad.length then r' else { r' with tree := none }
+
+/-! #### a toy hash universe for the driver (share "families": family f = one consistent set of N shares) -/
+namespace Toy
+
+inductive TH
+  | fam (f : Nat)                      -- root of family f's share hash tree
+  | leafOf (f i : Nat)                 -- block-hash root of share i of family f
+  | junkLeaf (id : Nat)                -- block-hash root of a damaged block
+  | junkRoot (c i : Nat) (leaf : TH)   -- what a chain of family c computes from a leaf that is not its own
+  deriving DecidableEq, Repr
+
+/-- chains are identified with their family -/
+def ops : TreeOps TH Nat where
+  chainRoot := fun c i leaf => if leaf = .leafOf c i then .fam c else .junkRoot c i leaf
+
+inductive Ev
+  | offer (shnum fam : Nat)            -- an internally consistent share of family `fam`
+  | damaged (shnum fam id : Nat)       -- chain of family `fam`, block data damaged
+  | fail (shnum : Nat)
+  deriving Repr
+
+def toREv : Ev → REv Nat TH
+  | .offer i f => .offer i f (.leafOf f i)
+  | .damaged i f id => .offer i f (.junkLeaf id)
+  | .fail i => .fail i
+
+/-- per event: was the share accepted?  plus the final state -/
+def run (seed : Option Nat) (evs : List Ev) : List Bool × Retr TH TH :=
+  evs.foldl (fun (acc : List Bool × Retr TH TH) e =>
+    let r' := rstep ops id acc.2 (toREv e)
+    (acc.1 ++ [decide (r'.bad.length = acc.2.bad.length)], r'))
+    ([], { tree := seed.map TH.fam, shares := [], bad := [] })
+
+end Toy
+
 /-! ### who can make a version: symbolic terms and adversary knowledge (Dolev–Yao) -/
 
 inductive T
